@@ -260,6 +260,12 @@ func checkC09(c *CheckCtx) error {
 		cleanGenOpts{maxTests: 3, maxCalls: 4, change: 0.2, drop: 0.5, add: 0.2, staleProb: 0.9, decoyProb: 0.9, sortProb: 0.5, againProb: 0.2, counts: true, moveProb: 0.3, oddDirs: true}); err != nil {
 		return err
 	}
+	if err := c.repro(oneStaleAmongMany()...); err != nil {
+		return err
+	}
+	if err := c.repro(manyObsolete()...); err != nil {
+		return err
+	}
 	return c.repro(reproK6(false), reproK6(true))
 }
 
@@ -276,6 +282,9 @@ func checkC10(c *CheckCtx) error {
 		cleanGenOpts{maxTests: 4, maxCalls: 5, change: 0.2, drop: 0.4, add: 0.3, staleProb: 0.8, decoyProb: 0.3, sortProb: 0.8, againProb: 0.6}); err != nil {
 		return err
 	}
+	if err := c.repro(oneStaleAmongMany()...); err != nil {
+		return err
+	}
 	return c.repro(reproK6(false), reproK6(true))
 }
 
@@ -287,6 +296,9 @@ func checkC20(c *CheckCtx) error {
 	}
 	if err := c.randomClean(c.pick(120, 2000), "t", []string{"default", "clean", "update", "ci", "other", "color", "ci+clean"},
 		cleanGenOpts{maxTests: 5, maxCalls: 6, change: 0.5, drop: 0.3, add: 0.3, staleProb: 0.5, decoyProb: 0.3, sortProb: 0.3, againProb: 0.1, counts: true, skipProb: 0.2, parProb: 0.3, badProb: 0.2}); err != nil {
+		return err
+	}
+	if err := c.repro(manyObsolete()...); err != nil {
 		return err
 	}
 	return c.summaryHistories()
@@ -379,6 +391,59 @@ func (c *CheckCtx) repro(scs ...*Scenario) error {
 		c.nontrivial(s.Note)
 	}
 	return c.runSeq(scs)
+}
+
+// oneStaleAmongMany: several used multi-entry files, exactly one of them holds a stale entry. Clean
+// (deleting, not sorting) rewrites that file and leaves the others untouched, in whatever order it
+// walks them (the order is a map iteration: each scenario is one draw).
+func oneStaleAmongMany() []*Scenario {
+	var out []*Scenario
+	files := []struct{ cfg, path, stale string }{{"c", "snaps/main_test.snap", "TestGone - 1"}, {"f", "snaps/custom.snap", "TestGone - 2"}, {"e", "snaps/ext.snap.txt", "TestOld - 1"}}
+	for rep := 0; rep < 3; rep++ {
+		for si := range files {
+			sc := &Scenario{ID: fmt.Sprintf("osm%d_%d", rep, si), Configs: stdConfigs(), Program: append([]string{}, topTests...)}
+			for fi, f := range files {
+				content := "\n[TestA - 1]\nvalue in " + f.cfg + "\n---\n\n[TestB - 1]\nb in " + f.cfg + "\n---\n"
+				if fi == si {
+					content = "\n[TestA - 1]\nvalue in " + f.cfg + "\n---\n\n[" + f.stale + "]\nleft over\n---\n\n[TestB - 1]\nb in " + f.cfg + "\n---\n"
+				}
+				sc.Init = append(sc.Init, InitFile{P: f.path, Role: "multi", Content: []byte(content)})
+			}
+			tests := map[string]*TDef{"TestA": {Execs: [][]*Step{{}}}, "TestB": {Execs: [][]*Step{{}}}}
+			for _, f := range files {
+				tests["TestA"].Execs[0] = append(tests["TestA"].Execs[0], &Step{Op: "match", API: "snapshot", Cfg: f.cfg, Val: strVal("value in " + f.cfg)})
+				tests["TestB"].Execs[0] = append(tests["TestB"].Execs[0], &Step{Op: "match", API: "snapshot", Cfg: f.cfg, Val: strVal("b in " + f.cfg)})
+			}
+			sc.Procs = append(sc.Procs, &Proc{Spec: procSpec("clean"), Real: true, State: "call", Clean: &CleanDef{Sort: rep == 2}, Tests: tests})
+			sc.Note = fmt.Sprintf("three used files, the stale entry is in %s, Clean deletes (sort requested: %v)", files[si].path, rep == 2)
+			out = append(out, sc)
+		}
+	}
+	return out
+}
+
+// manyObsolete: far more stale items than usual (45 entries in a used file, 35 stale files): every
+// one of them is listed, whatever the length of the lists.
+func manyObsolete() []*Scenario {
+	var out []*Scenario
+	for i, mode := range []string{"default", "clean"} {
+		sc := &Scenario{ID: fmt.Sprintf("many%d", i), Configs: stdConfigs(), Program: append([]string{}, topTests...)}
+		var b strings.Builder
+		b.WriteString("\n[TestA - 1]\nlive\n---\n")
+		for k := 0; k < 45; k++ {
+			fmt.Fprintf(&b, "\n[TestGone%02d - 1]\nstale %d\n---\n", k, k)
+		}
+		sc.Init = append(sc.Init, InitFile{P: "snaps/main_test.snap", Role: "multi", Content: []byte(b.String())})
+		for k := 0; k < 35; k++ {
+			sc.Init = append(sc.Init, InitFile{P: fmt.Sprintf("snaps/TestOld%02d_1.snap", k), Role: "alone", Owner: fmt.Sprintf("TestOld%02d", k), Content: []byte("stale standalone")})
+		}
+		sc.Procs = append(sc.Procs, &Proc{Spec: procSpec(mode), Real: true, State: "call", Clean: &CleanDef{}, Tests: map[string]*TDef{
+			"TestA": {Execs: [][]*Step{{{Op: "match", API: "snapshot", Cfg: "c", Val: strVal("live")}, {Op: "match", API: "snapshot", Cfg: "c", Val: strVal("new")}}}},
+		}})
+		sc.Note = "45 stale entries and 35 stale files next to one live test, mode " + mode
+		out = append(out, sc)
+	}
+	return out
 }
 
 // trimpathClean: Clean in binaries built with -trimpath (the registries hold the relative paths the
